@@ -9,7 +9,7 @@ BASIC_WS = b" \t\x0c\r"
 
 TB_COMMON = [
     "Coq 8.16.1 kernel (coqc, incl. its bytecode VM: vm_compute is used for finite table facts and Examples); no native_compute",
-    "tools/gen_tables.py: regular-expression translator Rust/TS -> coq/Gen/Tables.v (fails closed on unknown shapes)",
+    "tools/gen_tables.py: regular-expression translator Rust/TS -> coq/Gen/Tables.v (fails closed on unknown shapes); further passes translate random.rs (method by method), DimArray::new / get_linear_index of arrays.rs (statement by statement), ProgramLines first/after/has/get/set (call by call) and the order of cap tests in program.rs into coq/Gen/RandomRs.v, ArraysRs.v, ProgramLinesRs.v, ProgramEvents.v; the meaning given to that Rust fragment is coq/Model/RustInt.v (u64 = usize arithmetic, overflow = panic, checked_*().ok_or(e)? = error) and coq/Model/RustColl.v (BTreeSet = ascending key list, HashMap = association list)",
     "correspondence check: Rust harness (/verif/harness) + hooks (--cfg abasic_verif) + vlib/*.py + coq/Run/Harness.v; differential testing, not proof",
     "hand-written Gallina model of abasic-core (coq/Model/*.v): modelled, tied by correspondence only; the Rust is not proved to refine it",
     "Model/Num.v: IEEE-754 binary64 over Coq's SpecFloat (axiom-free), Rust float parsing/printing re-specified and validated on 32k vectors",
